@@ -252,16 +252,20 @@ pub fn c19_sweep(max_l: usize) -> Vec<Program> {
     let scan_pre = [Op::Wrap(Stage::Scan)];
     let trust_pre = [Op::Wrap(Stage::ToTrust), Op::NextBack];
     let pre: [&[Op]; 6] = [&[], &[Op::Next], &[Op::NextBack], &[Op::Next, Op::NextBack], &scan_pre, &trust_pre];
-    for ty in [Ty::I32, Ty::OptF64, Ty::Trk, Ty::F64] {
+    for ty in [Ty::I32, Ty::OptF64, Ty::Trk, Ty::F64, Ty::OptI32] {
         for m in 0..=max_l {
-            for variant in 0..=(if ty == Ty::OptF64 { 2 } else { 0 }) {
+            for variant in 0..=(match ty {
+                Ty::OptF64 => 2,
+                Ty::OptI32 => 1,
+                _ => 0,
+            }) {
                 let data = pattern(ty, m, variant);
                 for ops in pre.iter() {
                     if ops.iter().filter(|o| !matches!(o, Op::Wrap(_))).count() > m {
                         continue;
                     }
                     for backend in [Backend::Sim, Backend::Deque { head: 3 }] {
-                        if backend != Backend::Sim && (ty == Ty::F64 || variant > 0) {
+                        if backend != Backend::Sim && (ty == Ty::F64 || ty == Ty::OptI32 || variant > 0) {
                             continue;
                         }
                         let mut sinks = vec![Sink::TrustedToVec];
@@ -269,7 +273,7 @@ pub fn c19_sweep(max_l: usize) -> Vec<Program> {
                             sinks.push(Sink::TrustedVec1(c));
                             sinks.push(Sink::PlainVec1(c));
                             sinks.push(Sink::WithLen(c));
-                            if ty == Ty::OptF64 {
+                            if matches!(ty, Ty::OptF64 | Ty::OptI32) {
                                 sinks.push(Sink::OptCollect(c));
                             }
                         }
@@ -289,7 +293,7 @@ pub fn c19_sweep(max_l: usize) -> Vec<Program> {
                 }
             }
             // fallible collection: errors at every position / pair of positions
-            if ty != Ty::F64 {
+            if ty != Ty::F64 && ty != Ty::OptI32 {
                 let data = pattern(ty, m, 0);
                 for errs in subsets_upto2(m) {
                     for ops in pre.iter().take(2) {
@@ -359,14 +363,14 @@ pub fn c19_sweep(max_l: usize) -> Vec<Program> {
                 for c in containers {
                     sinks.push(Sink::PlainVec1(c));
                     sinks.push(Sink::WithLen(c));
-                    if ty == Ty::OptF64 {
+                    if matches!(ty, Ty::OptF64 | Ty::OptI32) {
                         sinks.push(Sink::OptCollect(c));
                     }
                 }
                 for s in sinks {
                     out.push(Program::Pipe(Pipe {
                         ty,
-                        data: pattern(ty, m, if ty == Ty::OptF64 { 2 } else { 0 }),
+                        data: pattern(ty, m, if ty == Ty::OptF64 { 2 } else if lm == 3 && ty == Ty::OptI32 { 1 } else { 0 }),
                         errs: vec![],
                         fallible: false,
                         backend: Backend::Sim,
@@ -375,7 +379,7 @@ pub fn c19_sweep(max_l: usize) -> Vec<Program> {
                         terminal: Terminal::HandOff(s),
                     }));
                 }
-                if ty != Ty::Trk && ty != Ty::F64 {
+                if ty != Ty::Trk && ty != Ty::F64 && ty != Ty::OptI32 {
                     for errs in [vec![], vec![0], vec![m.saturating_sub(1)], vec![0, m.saturating_sub(1)]] {
                         if errs.iter().any(|e| *e >= m) {
                             continue;
@@ -597,7 +601,15 @@ pub fn rolling(max_l: usize) -> Vec<Program> {
                     }
                     let two_series = matches!(driver, 2 | 3 | 5 | 10);
                     let lazy_backend = matches!(backend, Backend::SimInput | Backend::Deque { .. } | Backend::ArcDeque { .. });
-                    let deltas: &[i64] = if two_series && lazy_backend { &[0, -1, -2, 1] } else { &[0] };
+                    // rolling2_custom slices the second series itself: a shorter one is refused with a
+                    // clean panic by the slicing (caller error), so only equal / longer ones there
+                    let deltas: &[i64] = if driver == 5 && lazy_backend {
+                        &[0, 1]
+                    } else if two_series && lazy_backend {
+                        &[0, -1, -2, 1]
+                    } else {
+                        &[0]
+                    };
                     for &other_delta in deltas {
                         out.push(Program::Roll(Roll {
                             ty: Ty::F64,
